@@ -23,10 +23,10 @@
 """Utilities for modules that require sequenced actions on value change."""
 
 
+import threading
 from time import sleep
 
 from frappy.errors import IsBusyError
-from frappy.lib import mkthread
 
 
 class Namespace:
@@ -119,7 +119,10 @@ class SequencerMixin:
         self._seq_stopflag = False
         self._seq_error = self._seq_stopped = None
 
-        self._seq_thread = mkthread(self._seq_thread_outer, seq, store_init)
+        # store the handle before the thread runs: it clears the handle itself when it is done
+        thread = threading.Thread(target=self._seq_thread_outer, args=(seq, store_init), daemon=True)
+        self._seq_thread = thread
+        thread.start()
 
     def seq_is_alive(self):
         """Can be called to check if a sequence is currently running."""
